@@ -108,7 +108,7 @@ CHECKS.update({
    text="TLC proves the C07 invariants (promised statements on disk in order at stop/exit; signalled thread's statements then notice; right wait "
         "status; restart works) on Life.tla for all interleavings within small bounds, with -coverage and 7 seeded model defects caught; seeded TLC "
         "behaviours are run as forked children with the real backend thread/FileSink/signals and every recorded execution is validated by TLC "
-        "against LifeContract (TraceLife.tla); Life.tla carries the timestamp-ordering grace period (statements too young to be read, Age) with a seeded model defect for an exit drain that stops early; the stop handshake under the C++ release/acquire model is StopRA.tla with the memory orders extracted "
+        "against LifeContract (TraceLife.tla); NewCtxRA.tla behaviours ending with Backend::stop() (a lost registration loses statements at stop); Life.tla carries the timestamp-ordering grace period (statements too young to be read, Age) with a seeded model defect for an exit drain that stops early; the stop handshake under the C++ release/acquire model is StopRA.tla with the memory orders extracted "
         "from the code, every transition replayed on the REAL backend thread / Backend::stop() / log calls on a shim atomic (h_stop), judged by TraceStop.tla",
    note="exhaustive only for main+1 worker x3 statements x2 starts x six signals, main+2 workers x2 statements x{SEGV,INT}, and main+2 workers x3 "
         "statements with no signals; the full bound by seeded simulation only; real code sampled (240/3000 children); a rejection must repeat in 3 "
